@@ -39,15 +39,19 @@ LENIENT = dict(
 )
 # a whole valid line of the section's own kinds behind (or in front of) junk: a recogniser applied with search()
 # instead of match(), or without its anchors, would dig it out
+# the kind letters and keywords are case-sensitive
+LOWERCASE = dict(sync=["5 = b 1", "5 = ts 4", "5 = Ts 4 2", "5 = a 1"], events=['3 = e "x"', '3 = e "lyric l"'], track=["2 = n 1 0", "2 = s 2 5", "2 = e solo"])
+# lines of the [Song] kind are foreign everywhere else: reported there, and never read as metadata
+SONGKIND = ["Offset = 7", 'Year = "x"', "Difficulty = 3", 'MusicStream = "x.ogg"', "Resolution = 96", "Player2 = bass", 'Name = "n"']
 PREFIXED = dict(
     sync=["x0 = B 1", "-5 = TS 4", "// 5 = A 1", "1.5 = B 1", "5 = B 1 //", "5 = TS 4 x"],
     events=['x3 = E "x"', '// 3 = E "x"', '-3 = E "lyric l"', '1.3 = E "section s"'],
     track=["x2 = S 2 5", "-2 = S 2 5", "// 2 = S 2 5", "1.2 = S 2 5", "2 = N 8 0 2 = S 2 5", "x2 = E solo", "// 2 = N 1 0", "1.2 = N 1 0", "2 = S 2 5 //", "2 = N 1 0 x"],
 )
 GARBAGE = dict(
-    sync=["", "garbage", "0 = N 0 0", '0 = E "x"', "0 = B", "0 = TS", "5 = B x", " = B 1", "5 = A", "0 = BB 1"] + BRACES + LENIENT["sync"] + PREFIXED["sync"],
-    events=["", "garbage", "0 = B 120000", "0 = E solo", "0 = N 0 0", '3 = E "unterminated', "3 = E", '= E "x"'] + BRACES + LENIENT["events"] + PREFIXED["events"],
-    track=["", "garbage", "2 = S 64 5", "2 = N 8 0", "2 = E two words", "0 = B 120000", '0 = E "section a"', "2 = S 2", "2 = N 0", "2 = N 0 0 0", "2 = S 1 5"] + BRACES + LENIENT["track"] + PREFIXED["track"],
+    sync=["", "garbage", "0 = N 0 0", '0 = E "x"', "0 = B", "0 = TS", "5 = B x", " = B 1", "5 = A", "0 = BB 1"] + BRACES + LENIENT["sync"] + PREFIXED["sync"] + LOWERCASE["sync"] + SONGKIND,
+    events=["", "garbage", "0 = B 120000", "0 = E solo", "0 = N 0 0", '3 = E "unterminated', "3 = E", '= E "x"'] + BRACES + LENIENT["events"] + PREFIXED["events"] + LOWERCASE["events"] + SONGKIND,
+    track=["", "garbage", "2 = S 64 5", "2 = N 8 0", "2 = E two words", "0 = B 120000", '0 = E "section a"', "2 = S 2", "2 = N 0", "2 = N 0 0 0", "2 = S 1 5"] + BRACES + LENIENT["track"] + PREFIXED["track"] + LOWERCASE["track"] + SONGKIND,
 )
 
 SCRIPT = """{observe_src}
